@@ -20,6 +20,8 @@ pub enum Obj {
     Settle,
     /// harness-only: waiting for every other thread to finish
     AllDone,
+    /// waiting in a channel Select for any registered channel to change
+    Select,
 }
 
 #[derive(Clone, Copy, PartialEq, Eq, Debug)]
